@@ -28,16 +28,17 @@ type AtomInfo struct {
 }
 
 type Analysis struct {
-	P        *Prog
-	B        *BDD
-	ctxs     map[string]*FuncCtx
-	Inline   func(callee *ssa.Function) bool
-	MaxDepth int
-	Atoms    map[string]*AtomInfo
-	pureMemo map[*ssa.Function]bool
-	nonNilG  map[*ssa.Global]bool
-	siteSeq  int
-	byFn     map[*ssa.Function]map[string]*AtomInfo
+	P         *Prog
+	B         *BDD
+	ctxs      map[string]*FuncCtx
+	Inline    func(callee *ssa.Function) bool
+	MaxDepth  int
+	Atoms     map[string]*AtomInfo
+	pureMemo  map[*ssa.Function]bool
+	pureVMemo map[*ssa.Function]bool
+	nonNilG   map[*ssa.Global]bool
+	siteSeq   int
+	byFn      map[*ssa.Function]map[string]*AtomInfo
 }
 
 // AtomIn returns the atom as it occurs in fn (operand values of that function), falling back to the
@@ -681,26 +682,27 @@ func (fc *FuncCtx) eqFormula(in ssa.Instruction, a, b ssa.Value) *bddNode {
 	}
 	// a parameter of an inlined callee compared with a constant: compare the caller's argument (which may be a phi)
 	if pa, ok := a.(*ssa.Parameter); ok && fc.parent != nil {
-		if _, isC := b.(*ssa.Const); isC {
+		if isConstLike(b) {
 			if av := fc.argVal[pa]; av != nil {
 				return fc.parent.eqFormula(in, av, b)
 			}
 		}
 	}
 	if pb, ok := b.(*ssa.Parameter); ok && fc.parent != nil {
-		if _, isC := a.(*ssa.Const); isC {
+		if isConstLike(a) {
 			if av := fc.argVal[pb]; av != nil {
 				return fc.parent.eqFormula(in, a, av)
 			}
 		}
 	}
-	// the result of a side-effect-free module helper compared with a constant: case split over the helper's returns
-	if _, isC := b.(*ssa.Const); isC {
+	// the result of a side-effect-free module helper compared with a constant (or a package-level sentinel): case split
+	// over the helper's returns
+	if isConstLike(b) {
 		if f, ok := fc.callResultGated(a, func(sub *FuncCtx, rv ssa.Value) *bddNode { return sub.eqFormula(in, rv, b) }); ok {
 			return f
 		}
 	}
-	if _, isC := a.(*ssa.Const); isC {
+	if isConstLike(a) {
 		if f, ok := fc.callResultGated(b, func(sub *FuncCtx, rv ssa.Value) *bddNode { return sub.eqFormula(in, a, rv) }); ok {
 			return f
 		}
@@ -1517,7 +1519,7 @@ func (fc *FuncCtx) callResultGated(v ssa.Value, f func(sub *FuncCtx, rv ssa.Valu
 	default:
 		return nil, false
 	}
-	sc := call.Call.StaticCallee()
+	sc, cargs := fc.calleeArgs(call)
 	if sc == nil || fc.depth >= fc.A.MaxDepth || len(sc.Blocks) == 0 {
 		return nil, false
 	}
@@ -1526,7 +1528,7 @@ func (fc *FuncCtx) callResultGated(v ssa.Value, f func(sub *FuncCtx, rv ssa.Valu
 	if !fc.A.isPureModuleFunc(sc) && !(fc.A.Inline != nil && fc.A.Inline(sc)) {
 		return nil, false
 	}
-	sub := fc.inlineCtx(sc, call.Call.Args, call)
+	sub := fc.inlineCtx(sc, cargs, call)
 	B := fc.A.B
 	acc := B.False
 	n := 0
@@ -2438,4 +2440,70 @@ func nonNegRem(v ssa.Value) ssa.Value {
 		return v
 	}
 	return nil
+}
+
+// calleeArgs: the function a call runs and the arguments it receives (receiver first): the static callee, or — for an
+// interface method call whose receiver is known to hold one concrete type (a value converted to the interface in this
+// function, or an interface parameter of a helper analysed as part of a caller that passes such a value) — that type's
+// method.
+func (fc *FuncCtx) calleeArgs(c *ssa.Call) (*ssa.Function, []ssa.Value) {
+	if !c.Call.IsInvoke() {
+		return c.Call.StaticCallee(), c.Call.Args
+	}
+	t := fc.concreteTypeOf(c.Call.Value, 0)
+	if t == nil {
+		return nil, nil
+	}
+	sel := fc.A.P.SSA.MethodSets.MethodSet(t).Lookup(c.Call.Method.Pkg(), c.Call.Method.Name())
+	if sel == nil {
+		return nil, nil
+	}
+	m := fc.A.P.SSA.MethodValue(sel)
+	if m == nil || len(m.Blocks) == 0 {
+		return nil, nil
+	}
+	return m, append([]ssa.Value{c.Call.Value}, c.Call.Args...)
+}
+
+func (fc *FuncCtx) concreteTypeOf(v ssa.Value, depth int) types.Type {
+	if depth > 4 {
+		return nil
+	}
+	switch x := v.(type) {
+	case *ssa.MakeInterface:
+		return x.X.Type()
+	case *ssa.ChangeInterface:
+		return fc.concreteTypeOf(x.X, depth+1)
+	case *ssa.Parameter:
+		if fc.parent != nil {
+			if av := fc.argVal[x]; av != nil {
+				return fc.parent.concreteTypeOf(av, depth+1)
+			}
+		}
+	case *ssa.Phi:
+		var t types.Type
+		for _, e := range x.Edges {
+			et := fc.concreteTypeOf(e, depth+1)
+			if et == nil || (t != nil && !types.Identical(t, et)) {
+				return nil
+			}
+			t = et
+		}
+		return t
+	}
+	return nil
+}
+
+// isConstLike: a constant, or the value of a package-level variable (a sentinel error): the same value in every context.
+func isConstLike(v ssa.Value) bool {
+	switch x := v.(type) {
+	case *ssa.Const:
+		return true
+	case *ssa.UnOp:
+		if x.Op == token.MUL {
+			_, isG := x.X.(*ssa.Global)
+			return isG
+		}
+	}
+	return false
 }
